@@ -41,11 +41,23 @@ fn no_format(_args: core::fmt::Arguments<'_>) -> alloc::string::String {
 }
 
 fn drop_case(writer_live: bool, db_first: bool) {
-    let mem = Arc::new(crate::tree_store::verif_literal_mem());
-    crate::tree_store::verif_set_cur_mem(&mem);
-    let tracker = Arc::new(TransactionTracker::new(TransactionId::new(3)));
+    // the two flags are inputs of the query, but each path runs on a fully concrete state (the
+    // whole body sits inside each arm): a flag stored symbolically inside the Arc'ed
+    // TransactionalMemory makes every later read through the Arc opaque to CBMC
     let failure: bool = kani::any();
     let needs_repair: bool = kani::any();
+    match (failure, needs_repair) {
+        (false, false) => drop_case_on(writer_live, db_first, false, false),
+        (false, true) => drop_case_on(writer_live, db_first, false, true),
+        (true, false) => drop_case_on(writer_live, db_first, true, false),
+        (true, true) => drop_case_on(writer_live, db_first, true, true),
+    }
+}
+
+fn drop_case_on(writer_live: bool, db_first: bool, failure: bool, needs_repair: bool) {
+    let mem = Arc::new(crate::tree_store::verif_literal_mem_concrete());
+    crate::tree_store::verif_set_cur_mem(&mem);
+    let tracker = Arc::new(TransactionTracker::new(TransactionId::new(3)));
     let guard = if writer_live {
         Some(TransactionGuard::new_write(tracker.start_write_transaction(), tracker.clone()))
     } else {
